@@ -116,18 +116,6 @@ def weyl_from_matrix(u: np.ndarray):
 # --------------------------------------------------------------------------- classes & boundaries
 
 
-def boundary_margin(v) -> float:
-    """Distance (in coordinate units) of a canonical vector to the nearest count-relevant wall.
-
-    Walls: z=0, y=0, x=0, x=pi/4, y=pi/4 (|z|=pi/4 implied), x=y+|z| (sqrt-iSWAP 2/3 wall),
-    the sqrt-iSWAP point (pi/8,pi/8,0).
-    """
-    x, y, z = v
-    ds = [abs(z), abs(y), abs(x), abs(x - Q), abs(y - Q), abs(abs(z) - Q), abs(x - y - abs(z))]
-    ds.append(max(abs(x - PI / 8), abs(y - PI / 8), abs(z)))
-    return float(min(ds))
-
-
 def cz_class(v, t0: float, t1: float | None = None, t2: float | None = None) -> int:
     """Number of full CZ/CNOT gates for canonical vector v; each test has its own tolerance so that a caller
     can enumerate every reading of a tolerance band.  0: local; 1: (pi/4,0,0); 2: z == 0; else 3."""
@@ -201,7 +189,3 @@ def controlled(m: np.ndarray, n_controls: int) -> np.ndarray:
     out = np.eye(D, dtype=complex)
     out[D - d:, D - d:] = m
     return out
-
-
-def count_ops(ops, pred) -> int:
-    return sum(1 for op in ops if pred(op))
